@@ -907,6 +907,12 @@ class Evaluator:
                 return len(recv.toks) == 0
         if isinstance(recv, SymObj) and recv.path == "Default::default()" and name in ("is_empty", "len"):
             return True if name == "is_empty" else 0
+        # a symbolic string that a match has already decided: string predicates on it are concrete
+        if isinstance(recv, SymObj) and isinstance(self.decisions.get(recv.path), str) and self.decisions[recv.path] != OTHER_STR \
+                and name in ("starts_with", "ends_with", "contains", "eq", "ne") and len(args) == 1 and isinstance(args[0], str):
+            sv = self.decisions[recv.path]
+            return {"starts_with": sv.startswith(args[0]), "ends_with": sv.endswith(args[0]), "contains": args[0] in sv,
+                    "eq": sv == args[0], "ne": sv != args[0]}[name]
         # effects on symbolic objects
         if isinstance(recv, SymObj):
             self.effects.append((recv.path, name, [vkey(a) for a in args]))
